@@ -129,10 +129,13 @@ func (f *Fosite) authorizeRequestParametersFromOpenIDConnectRequest(ctx context.
 		// Do not re-process already enhanced errors
 		var e *jwt.ValidationError
 		if errors.As(err, &e) {
-			if e.Inner != nil {
+			// pass errors on that were raised (as OAuth 2.0 errors) inside the key function; anything else, such as
+			// the library's plain "Token is expired", makes the request object invalid
+			var rfcerr *RFC6749Error
+			if e.Inner != nil && errors.As(e.Inner, &rfcerr) {
 				return e.Inner
 			}
-			return errorsx.WithStack(ErrInvalidRequestObject.WithHint("Unable to verify the request object's signature.").WithWrap(err).WithDebug(err.Error()))
+			return errorsx.WithStack(ErrInvalidRequestObject.WithHint("Unable to verify the request object's signature or claims.").WithWrap(err).WithDebug(err.Error()))
 		}
 		return err
 	} else if err := token.Claims.Valid(); err != nil {
